@@ -14,8 +14,8 @@ BUILT = {
  "C02": dict(
    technique="proptest structured generation + reference enumeration model (multiset equality both ways)",
    category="exploration",
-   text="Generated (flop, 1-6 ranges) configurations - card-pool ranges with frequent player-player blocking, ranges overlapping the flop, identical ranges, sizes 1..1326 including 255/256/257 and >255 beside narrow ranges - are drained and compared as multisets with an independent enumeration of all legal deals: nothing missing, nothing extra, nothing twice; board layout, hole cards per seat and probability = product of weights are checked per showdown. Sampled; a cost budget bounds the product of range sizes per case.",
-   note="Trusted: the harness's enumeration model (evalmodel.rs). Probability is compared within (n+1) f32 roundings because the statement fixes the value, not the multiplication order. Weights from {0} U [2^-10,1].",
+   text="Generated (flop, 1-6 ranges) configurations - card-pool ranges with frequent player-player blocking, ranges overlapping the flop, identical ranges, sizes 1..1326 including 255/256/257 and >255 beside narrow ranges - are drained and compared as multisets with an independent enumeration of all legal deals: nothing missing, nothing extra, nothing twice; board layout, hole cards per seat and probability are checked per showdown (for <= 4 players the reported f32 must be one of the values some order/association of the multiplications gives, for one player the weight itself; weights include neighbouring f32 values and tiny values). A second stream takes a prefix of configurations far too large to drain (3 ranges of up to 1326 combos, > 2^32 slots): legality, order, first position, count. Sampled; a cost budget bounds what is drained completely.",
+   note="Trusted: the harness's enumeration model (evalmodel.rs). Probability for more than 4 players is compared within (n+1) f32 roundings because the statement fixes the value, not the multiplication order. Weights from {0} U [2^-10,1] (down to 2^-24 with <= 4 players).",
    ref="DESIGN.md section 4 (C02)"),
  "C03": dict(
    technique="proptest structured generation (board archetypes, mirrored hole cards) + reference-class oracle",
@@ -26,13 +26,13 @@ BUILT = {
  "C04": dict(
    technique="exhaustive enumeration of all (from,to) windows for fixed configurations + proptest model-based histories (scope calls, chains) against the unscoped run",
    category="exploration",
-   text="For 2 (quick) / 6 (thorough) fixed configurations every one of the 693,253 ordered windows from <= to over the 1177 positions is generated and the scoped run compared, position by position, with the unscoped run's window, with three further next() calls after exhaustion. Generated histories over small random configurations add repeated scope() calls (last wins), windows biased to row edges/terminal/empty, and chains of 0-63 cuts whose concatenation must equal the full run.",
+   text="For 2 (quick) / 6 (thorough) fixed configurations every one of the 693,253 ordered windows from <= to over the 1177 positions is generated and the scoped run compared, position by position, with the unscoped run's window, with three further next() calls after exhaustion. Generated histories over small random configurations add repeated scope() calls (last wins), windows biased to row edges/terminal/empty, chains of 0-63 cuts whose concatenation must equal the full run, and prefixes of windows over configurations too large to drain (> 2^32 odometer slots).",
    note="Trusted: the unscoped run of the same build as reference (C02 decides that it is the right enumeration); 64-bit showdown fingerprints. Only valid positions with from <= to are generated.",
    ref="DESIGN.md section 4 (C04)"),
  "C05": dict(
    technique="exhaustive enumeration of all 3,796 well-formed tokens x weight literals + proptest token lists, differential against an independent notation model",
    category="exploration",
-   text="Every well-formed token (all ranks, rank pairs in either order, spans, ordered card pairs) x 4 (quick) / 14 (thorough) weight literals must parse and expand to exactly the combo set the model derives from the poker meaning of the notation, each combo once, at the literal's value; generated lists of 0-12/40 tokens over a small rank palette (frequent overlaps with different weights), optional spaces, the empty and all-space strings must parse to the model's sequential-insert map with bit-identical weights.",
+   text="Every well-formed token (all ranks, rank pairs in either order, spans, ordered card pairs) x 4 (quick) / 14 (thorough) weight literals must parse and expand to exactly the combo set the model derives from the poker meaning of the notation, each combo once, at the literal's value; generated lists of 0-12/40 tokens over a small rank palette (frequent overlaps with different weights), optional spaces, the empty and all-space strings, lists of up to 320 tokens and lists that first cover all 1326 combos and then override parts must parse to the model's sequential-insert map with bit-identical weights and one entry per combo.",
    note="Trusted: the harness's token AST/expander (notation.rs) and std's f32 parser for literal values. Lists are sampled.",
    ref="DESIGN.md section 4 (C05)"),
  "C06": dict(
@@ -44,19 +44,19 @@ BUILT = {
  "C07": dict(
    technique="exhaustive enumerating generator over all C(52,7) sets + directed category-boundary cases, oracle = category of the reference best-of-21 class",
    category="exploration",
-   text="All 133,784,560 sets (hence all 4,824 reachable power indexes) plus the strongest and weakest reachable hand of every category are generated; the Debug name of hand_type() must equal the category of the best five-card hand under the independent classifier.",
+   text="All 133,784,560 sets (hence all 4,824 reachable power indexes) plus the strongest and weakest reachable hand of every category are generated; the Debug name of hand_type() must equal the category of the best five-card hand under the independent classifier; call histories (every reachable index right after a call for every category's boundary hands) check that the answer does not depend on the previous call.",
    note="Trusted: the harness's 5-card classifier (self-checked). The category enum is only reachable through its Debug output.",
    ref="DESIGN.md section 4 (C07)"),
  "C08": dict(
    technique="proptest structured generation + child-process execution on a 2 MiB thread in two build profiles (crash/panic/over-production oracle)",
    category="exploration",
-   text="Generated configurations aimed at the failure modes the statement names (longest blocked runs inside a window, sizes 0/1/255/256/257/511/512/513/1326, empty ranges at any seat, all-blocked ranges, full drains) are drained in a child process on a 2 MiB thread, once in a release and once in a debug-profile build of espada; any panic, signal (stack overflow), over-production, or output with an empty range is a violation.",
+   text="Generated configurations aimed at the failure modes the statement names (longest blocked runs inside a window, sizes 0/1/255/256/257/511/512/513/1326, empty ranges at any seat also beside ranges whose sizes multiply past 2^32/2^64, all-blocked ranges, 7-300 players, full drains) are drained in a child process on a 2 MiB thread, once in a release and once in a debug-profile build of espada; any panic, signal (stack overflow), over-production, or output with an empty range is a violation.",
    note="Trusted: the OS reporting the child's death; an infinite silent loop can only hit the watchdog (exit 2). Debug profile = espada at opt-level 0 with overflow checks and debug assertions, dependencies optimised.",
    ref="DESIGN.md section 4 (C08)"),
  "C09": dict(
    technique="exhaustive short-string and token-shape enumeration + proptest mutation/junk/over-long generators, crash oracle (catch_unwind) with follow-up use of every parsed value",
    category="exploration",
-   text="Every string of length <= 3 (thorough 4) over the notation alphabet extended by 2-, 3- and 4-byte characters, every string matching one of the seven token shapes with arbitrary ranks (and all 52x52 card-pair texts), plus generated mutated notation, mixed junk lists, arbitrary Unicode, weight literals and over-long inputs go through all six parsers under catch_unwind; every Ok value is formatted, expanded, decomposed and drained through the evaluator. Any panic is a violation. A libFuzzer target with the same oracle extends the thorough tier.",
+   text="Every string of length <= 3 (thorough 4) over the notation alphabet extended by 2-, 3- and 4-byte characters, every string matching one of the seven token shapes with arbitrary ranks (and all 52x52 card-pair texts), plus generated mutated notation, mixed junk lists, every single/double substitution of a notation character by a Unicode look-alike (digits of other scripts, full-width forms, Kelvin sign, long s), arbitrary Unicode, weight literals and over-long inputs (lengths around powers of two) go through all six parsers under catch_unwind; every Ok value is formatted, expanded, decomposed and drained through the evaluator (to the very end, beside other players, at non-adjacent seats). Any panic is a violation. A libFuzzer target with the same oracle extends the thorough tier.",
    note="Totality over all strings cannot be established by testing; the finite slices named by the property are covered completely. Evaluator hand-off is restricted to the first positions (cost).",
    ref="DESIGN.md section 4 (C09)"),
  "C10": dict(
@@ -68,14 +68,14 @@ BUILT = {
  "C11": dict(
    technique="proptest metamorphic testing (suit relabelling, player permutation) over integer win/tie tallies",
    category="exploration",
-   text="Generated suit-asymmetric configurations (flush-prone flops, single-suit ranges, pools, a mirrored player for ties, >255-combo ranges beside narrow ones) are evaluated three times: as given, with one of the 23 non-identity suit permutations applied to flop and ranges, and with the players permuted; integer tallies wins[player][k-way] must be equal resp. permuted, and in every showdown flagged winners == winner_len >= 1. Thorough adds all 24 relabellings for a sample.",
+   text="Generated suit-asymmetric configurations (flush-prone flops, single-suit ranges, pools, a mirrored player for ties, >255-combo ranges beside narrow ones) are evaluated three times: as given, with one of the 23 non-identity suit permutations applied to flop and ranges, and with the players permuted; integer tallies wins[player][k-way] must be equal resp. permuted, and in every showdown flagged winners == winner_len >= 1. A further stream uses three players whose weights are constructed so that the f32 product depends on the multiplication order around natural thresholds, in all six player orders. Thorough adds all 24 relabellings for a sample.",
    note="Trusted: nothing beyond the relation itself (no reference evaluator is involved); category lookup for the non-triviality rule uses the harness's class table.",
    ref="DESIGN.md section 4 (C11)"),
  "C12": dict(
    technique="exhaustive pattern enumeration inside one rank pair + proptest almost-complete patterns, differential against a split model",
    category="exploration",
-   text="Every absent/weight-a/weight-b pattern of the combos of a rank pair - all 3^6 x 13 pockets, 3^4 x 78 suited, 3^12 x 6 (quick) / 78 (thorough) offsuit - in a background of neighbouring rank pairs, biased almost-complete offsuit patterns over all 78 pairs with arbitrary weights, and row-pattern ranges: rank_pairs() must equal the model's complete cells in both directions with bit-equal weights, orphan_card_pairs() the model's leftovers, and every combo be covered exactly once.",
-   note="Trusted: the harness's cell/split model. Weights finite and non-negative.",
+   text="Every absent/weight-a/weight-b pattern of the combos of a rank pair - all 3^6 x 13 pockets, 3^4 x 78 suited, 3^12 x 6 (quick) / 78 (thorough) offsuit - in a background of neighbouring rank pairs (also with +0.0/-0.0 as the two weights), biased almost-complete offsuit patterns over all 78 pairs with arbitrary weights, and row-pattern ranges: rank_pairs() must equal the model's complete cells in both directions with bit-equal weights, orphan_card_pairs() the model's leftovers, and every combo be covered exactly once.",
+   note="Trusted: the harness's cell/split model. Weights finite and non-negative; -0.0 is the same weight as +0.0 (f32 equality).",
    ref="DESIGN.md section 4 (C12)"),
  "C13": dict(
    technique="exhaustive enumerating generator + model oracle (round trips, order/numbering model)",
@@ -84,15 +84,15 @@ BUILT = {
    note="Trusted: the harness's own card numbering (cards.rs), Card::new and enum pattern matching. Reversed range endpoints are outside the statement and not generated.",
    ref="DESIGN.md section 4 (C13)"),
  "C14": dict(
-   technique="exhaustive enumerating generator + algebraic/round-trip oracle",
+   technique="exhaustive enumerating generators (pairs, tokens, rank pairs) + proptest explicit-token lists, algebraic/round-trip/canonical-form oracle",
    category="exploration",
-   text="All 52x51 ordered pairs of distinct cards are generated; equality, hashes under two hashers, canonical element order, text round trip in both card orders and single-entry ranges are checked for each. The domain is finite and fully covered.",
+   text="All 52x51 ordered pairs of distinct cards are generated; equality, hashes under two hashers, canonical element order, text round trip in both card orders and single-entry ranges are checked for each. For the consequence clause every pair the library builds itself (expansion of all 3,796 tokens and of all RankPair values in either rank order, parsed 'X,mirror X' ranges, leftover view, generated lists of up to 430 explicit card-pair tokens) must be in that canonical form and each combo stored once.",
    note="Trusted: model card order (rank ace..deuce, then s,h,d,c); std hashers.",
    ref="DESIGN.md section 4 (C14)"),
  "C15": dict(
    technique="proptest model-based interleaving histories on one thread + sampled thread schedules and iterator hand-over in an isolated binary with compile-time Send/Sync assertions",
    category="exploration",
-   text="Generated schedules of next() calls over 1-6 live evaluators (identical ones, same inputs with different scopes, bursts, finish-then-resume) must give every evaluator exactly the sequence it gives alone; this is deterministic, shrinks and replays. Thread rounds (1-19 evaluators behind a barrier, moved evaluators, Arc-shared ranges, showdowns sent through channels, iterators handed over mid-run) sample OS schedules. Send+Sync for the public types is asserted at compile time in the isolated binary; a compile failure there is reported as a violation.",
+   text="Generated schedules of next() calls over 1-6 live evaluators (identical ones, same inputs with different scopes, bursts, finish-then-resume, dropping an iterator mid-run and starting a fresh one) must give every evaluator exactly the sequence it gives alone; this is deterministic, shrinks and replays. Thread rounds (1-19 evaluators behind a barrier, moved evaluators, Arc-shared ranges, showdowns sent through channels, iterators handed over mid-run to a thread that interleaves them with its own evaluator, 4-16 simultaneous long drains) sample OS schedules. Send+Sync for the public types is asserted at compile time in the isolated binary; a compile failure there is reported as a violation.",
    note="OS schedules are sampled, not controlled (the crate has no synchronisation to instrument). Sequence equality relies on deterministic HashMap iteration for identically constructed ranges (FxHash, no random state).",
    ref="DESIGN.md section 4 (C15)"),
  "C16": dict(
@@ -145,7 +145,7 @@ man = {
     ],
     "checks": checks,
     "not_applicable": [{"property_id": p, "reason": "check not built yet (framework under construction; the design in DESIGN.md section 4 applies)"} for p in ALL if p not in BUILT],
-    "notes": "Driver: ./check <ID> <quick|thorough> | ./check <ID> --replay <file>. Exit 0 held / 1 violation (VIOLATION line) / 2 inconclusive. VERIF_SEED selects the proptest seeds.",
+    "notes": "Driver: ./check <ID> <quick|thorough> | ./check <ID> --replay <file>. Exit 0 held / 1 violation (VIOLATION line) / 2 inconclusive. VERIF_SEED selects the proptest seeds. Every run first replays the committed regression cases of its property (regressions/), then runs the release-build streams, then (except C01/C07 quick, and C08 which always runs both profiles) a scaled-down replica against a debug-profile build of espada (evidence/<ID>.debug_profile.json); thorough additionally runs the libFuzzer campaigns where a target exists.",
 }
 json.dump(man, open("/verif/MANIFEST.json", "w"), indent=1)
 print("wrote MANIFEST.json with", len(checks), "checks")
